@@ -311,6 +311,53 @@ def _cond_segments_root_is_str(repo: Repo) -> str | None:
     return None if sites else "_segments_str is no longer called"
 
 
+def mapping_first_unguarded(repo: Repo) -> list[tuple]:
+    """(function, line, why) for every ``next(<iterator over the looked-up object>)`` in the two item
+    getters that is reachable while the object may be empty: the path conditions must contain the
+    object's truthiness (``isinstance(obj, Mapping) and obj``) or a positive ``len``.  An empty
+    mapping has no first pair: ``next`` raises StopIteration, which no caller converts into the
+    undefined value (shared with C16: a missing path never raises under the default type)."""
+    from ..guards import canon, conditions
+
+    from ..astutil import bind_args
+
+    out = []
+    n = 0
+    cls = repo.cls("liquid.context.RenderContext")
+    for m in ("get_item", "get_item_async"):
+        g = repo.own_method("liquid.context.RenderContext", m)
+        gobj = [p_ for p_ in g.params() if p_ != "self"][0]
+        # the getter and the private methods it hands the object to
+        todo = [(g, gobj)]
+        for c in ast.walk(g.node):
+            if isinstance(c, ast.Call) and isinstance(c.func, ast.Attribute) and is_name(c.func.value, "self") and c.func.attr in cls.methods and c.func.attr.startswith("_"):
+                h = cls.methods[c.func.attr]
+                b = bind_args(c, h.node) or {}
+                for pn, a in b.items():
+                    if is_name(a, gobj):
+                        todo.append((h, pn))
+        found = 0
+        for f, obj in todo:
+            ok_texts = {obj, f"len({obj}) > 0", f"len({obj}) != 0", f"len({obj}) >= 1"}
+            for st, cs in conditions(f.node):
+                if isinstance(st, (ast.If, ast.For, ast.AsyncFor, ast.While, ast.With, ast.AsyncWith, ast.Try)):
+                    continue
+                for c in ast.walk(st):
+                    if isinstance(c, ast.Call) and is_name(c.func, "next") and len(c.args) == 1 and any(is_name(x, obj) for x in ast.walk(c.args[0])):
+                        found += 1
+                        if not ({canon(k) for k in cs} & ok_texts):
+                            out.append((f, c.lineno, f"`{text(c)[:60]}` is reachable with an empty {obj} (path conditions: {sorted(canon(k) for k in cs)})"))
+        n += 1 if found else 0
+    if n < 2:
+        raise AnchorMissing(f"`next(<iterator over obj>)` (first pair of a mapping) found for {n} of the 2 item getters")
+    return out
+
+
+def _cond_mapping_first_nonempty(repo: Repo) -> str | None:
+    bad = mapping_first_unguarded(repo)
+    return f"{bad[0][0].qual}: {bad[0][2]}" if bad else None
+
+
 # site key (function|primitive:argument|exception) -> (reason, side condition or None)
 REVIEWED = {
     "liquid.context._segments_str|str(int):next(it)|ValueError": ("the first segment handed to _segments_str is the path's root after it passed isinstance(root, str): str() of a str", _cond_segments_root_is_str),
@@ -333,8 +380,8 @@ REVIEWED = {
     "liquid.context.RenderContext.get|next():it|StopIteration": ("a parsed Path always has at least one segment", None),
     "liquid.context.RenderContext.get_async|next():it|StopIteration": ("a parsed Path always has at least one segment", None),
     "liquid.context._segments_str|next():it|StopIteration": ("called with the non-empty segment list of a Path", None),
-    "liquid.context.RenderContext.get_item|next():itertools.islice(obj.items(), 1)|StopIteration": ("guarded by `isinstance(obj, Mapping) and obj` — a non-empty mapping", None),
-    "liquid.context.RenderContext.get_item_async|next():itertools.islice(obj.items(), 1)|StopIteration": ("as the sync twin", None),
+    "liquid.context.RenderContext.get_item|next():itertools.islice(obj.items(), 1)|StopIteration": ("guarded by `isinstance(obj, Mapping) and obj` — a non-empty mapping", _cond_mapping_first_nonempty),
+    "liquid.context.RenderContext.get_item_async|next():itertools.islice(obj.items(), 1)|StopIteration": ("as the sync twin", _cond_mapping_first_nonempty),
     "liquid.extra.filters._json.JSON.__call__|json.dumps():obj|ValueError": ("ValueError means a circular reference: JSON-like render data are acyclic (NaN/inf are allowed by default)", None),
     "liquid.extra.filters.babel.Unit.__call__|assert:isinstance(_length, str)|AssertionError": ("_length is one of the three literal strings or self.default_length (validated str in __init__)", None),
     "liquid.extra.tags.extends_tag._build_block_stacks|assert:base|AssertionError": ("only called from ExtendsNode, i.e. for a template that has an extends tag, so the first _stack_template_blocks call returns its parent", _cond_build_block_stacks_callers),
